@@ -244,3 +244,18 @@ CLAIMS["C17"] = {
     "note": "Not decided: numeric range for given data, and the value at p = 0 (observation O2: it is 0, not the first observed "
             "margin). numpy.searchsorted / divide semantics trusted.",
 }
+
+CLAIMS["C16"] = {
+    "technique": "def-use terms of the featurizer's methods (helpers inlined) matched clause by clause; constant folding of the sort-key "
+                 "lambda over the finite set of name classes it distinguishes; caller slices vs concat order; typestate count of "
+                 "prepare_data per featurizer object (construction sites)",
+    "level": "Decides for every assignment of levels to reporting / nonreporting / unexpected units: fit and holdout matrices are the "
+             "same column list in the same order (intercept, baseline margin terms, rest); active levels are exactly the expanded "
+             "levels seen on reporting & expected rows, the first per effect is dropped for the intercept and recorded; a unit with a "
+             "level not seen in fitting gets 1/(k+1) on the k fitted levels of that effect; centring uses all rows; unselected "
+             "levels are pooled to 'other'; per-state copies only for states with reporting rows; the bootstrap callers slice the "
+             "matrix with the bounds of the frames it was built from; prepare_data runs once per featurizer object.",
+    "note": "Trusted: get_dummies naming '<effect>_<level>'. Observation (not a rule): the per-effect selection uses startswith(fe) "
+            "while the expansion uses startswith(fe + '_'); they differ only if one effect name is a prefix of another. The "
+            "conformal callers' slices are decided in C04.R6 / C05.R3.",
+}
